@@ -10,12 +10,13 @@ Local Close Scope Q_scope.
 Definition nshape (n : node) : bool * nat * nat := (n_live n, n_c0 n, n_c1 n).
 Definition shape (lvls : list (list node)) : list (list (bool * nat * nat)) := map (map nshape) lvls.
 
-(* reachable nodes are in range and live, and the children of the last level are 0 *)
-Fixpoint good_from (t : atype) (lvls : list (list node)) (j : nat) : Prop :=
+(* reachable nodes are in range and live, and the children of the last level are below w (the width of the table the
+   model count starts from) *)
+Fixpoint good_from (t : atype) (w : nat) (lvls : list (list node)) (j : nat) : Prop :=
   match lvls with
-  | [] => j = 0
+  | [] => j < w
   | l :: rest => j < length l /\ n_live (getnode t l j) = true
-                 /\ good_from t rest (n_c0 (getnode t l j)) /\ good_from t rest (n_c1 (getnode t l j))
+                 /\ good_from t w rest (n_c0 (getnode t l j)) /\ good_from t w rest (n_c1 (getnode t l j))
   end.
 
 Lemma getnode_shape t l l' j : map nshape l = map nshape l' -> nshape (getnode t l j) = nshape (getnode t l' j).
@@ -25,7 +26,7 @@ Qed.
 Lemma shape_parts n n' : nshape n = nshape n' -> n_live n = n_live n' /\ n_c0 n = n_c0 n' /\ n_c1 n = n_c1 n'.
 Proof. unfold nshape. intros H. injection H as H1 H2 H3. auto. Qed.
 
-Lemma good_from_shape t : forall lvls lvls' j, shape lvls = shape lvls' -> good_from t lvls j -> good_from t lvls' j.
+Lemma good_from_shape t w : forall lvls lvls' j, shape lvls = shape lvls' -> good_from t w lvls j -> good_from t w lvls' j.
 Proof.
   induction lvls as [|l rest IH]; intros [|l' rest'] j H G; try discriminate; [exact G|].
   cbn [shape map] in H. injection H as Hl Hr. cbn [good_from] in *. destruct G as [G1 [G2 [G3 G4]]].
@@ -33,13 +34,13 @@ Proof.
   split; [rewrite <- (map_length nshape l'), <- Hl, map_length; exact G1|]. split; [congruence|].
   rewrite <- E2, <- E3. split; apply (IH rest'); assumption.
 Qed.
-Lemma good_live t : forall lvls j, good_from t lvls j -> live_from t lvls j.
+Lemma good_live t w : forall lvls j, good_from t w lvls j -> live_from t lvls j.
 Proof.
   induction lvls as [|l rest IH]; intros j G; [exact I|]. cbn [good_from live_from] in *. destruct G as [G1 [G2 [G3 G4]]]. auto.
 Qed.
-Lemma good_live_w t w : (0 < w) -> forall lvls j, good_from t lvls j -> live_w t w lvls j.
+Lemma good_live_w t w : forall lvls j, good_from t w lvls j -> live_w t w lvls j.
 Proof.
-  intros Hw. induction lvls as [|l rest IH]; intros j G; cbn [good_from live_w] in *; [lia|]. destruct G as [G1 [G2 [G3 G4]]]. auto.
+  induction lvls as [|l rest IH]; intros j G; cbn [good_from live_w] in *; [exact G|]. destruct G as [G1 [G2 [G3 G4]]]. auto.
 Qed.
 
 (* is the edge (level i, node j, value b) on the path of assignment x ? *)
@@ -151,7 +152,9 @@ Proof.
 Qed.
 
 (* ---------- 4. update(locations, f) on a diagram ---------- *)
-Definition okd (d : add) : Prop := wt_levels (d_type d) (d_levels d) /\ good_from (d_type d) (d_levels d) (d_root d).
+Definition rect (d : add) : Prop := forall l, In l (d_levels d) -> length l = diameter d.
+Definition okd (d : add) : Prop :=
+  wt_levels (d_type d) (d_levels d) /\ rect d /\ good_from (d_type d) (diameter d) (d_levels d) (d_root d).
 Definition same (d d' : add) : Prop :=
   d_type d' = d_type d /\ d_root d' = d_root d /\ shape (d_levels d') = shape (d_levels d) /\ d_units d' = d_units d.
 Definition on_loc (t : atype) (lvls : list (list node)) (root : nat) (x : list bool) (l : loc) : bool :=
@@ -166,8 +169,24 @@ Lemma hits_same d d' x locs : same d d' -> hits d' x locs = hits d x locs.
 Proof.
   intros [A [B [C D]]]. unfold hits. f_equal. apply filter_ext. intros [[i j] b]. unfold on_loc. rewrite A, B. apply on_path_shape. exact C.
 Qed.
-Lemma okd_same_good d d' : same d d' -> good_from (d_type d) (d_levels d) (d_root d) -> good_from (d_type d') (d_levels d') (d_root d').
-Proof. intros [A [B [C D]]] G. rewrite A, B. apply (good_from_shape _ (d_levels d)); [symmetry; exact C|exact G]. Qed.
+Lemma shape_lengths : forall lvls lvls', shape lvls = shape lvls' -> map (@length node) lvls = map (@length node) lvls'.
+Proof.
+  induction lvls as [|l rest IH]; intros [|l' rest'] H; try discriminate; [reflexivity|]. cbn [shape map] in H. injection H as Hl Hr.
+  cbn [map]. f_equal; [rewrite <- (map_length nshape l), Hl, map_length; reflexivity|apply IH; exact Hr].
+Qed.
+Lemma same_diameter d d' : same d d' -> diameter d' = diameter d.
+Proof.
+  intros [_ [_ [C _]]]. apply shape_lengths in C. unfold diameter. destruct (d_levels d') as [|l' r'], (d_levels d) as [|l r]; try discriminate; [reflexivity|].
+  cbn [map] in C. injection C as C _. exact C.
+Qed.
+Lemma okd_same d d' : same d d' -> wt_levels (d_type d') (d_levels d') -> okd d -> okd d'.
+Proof.
+  intros S W' [W [Rc G]]. pose proof (same_diameter d d' S) as Ed. destruct S as [A [B [C D]]]. split; [exact W'|]. split.
+  - intros l' Hl'. rewrite Ed. pose proof (shape_lengths _ _ C) as EL.
+    assert (Hin : In (length l') (map (@length node) (d_levels d'))) by (apply in_map; exact Hl').
+    rewrite EL in Hin. apply in_map_iff in Hin. destruct Hin as [l [<- Hl]]. apply Rc. exact Hl.
+  - rewrite A, B, Ed. apply (good_from_shape _ _ (d_levels d)); [symmetry; exact C|exact G].
+Qed.
 
 Lemma iter_succ_r {A} (g : A -> A) : forall k e, Nat.iter (S k) g e = Nat.iter k g (g e).
 Proof. induction k as [|k IH]; intros e; [reflexivity|]. change (Nat.iter (S (S k)) g e) with (g (Nat.iter (S k) g e)). rewrite IH. reflexivity. Qed.
@@ -182,8 +201,8 @@ Qed.
 Lemma fold_left_ext {A B} (f g : A -> B -> A) : (forall a b, f a b = g a b) -> forall l a, fold_left f l a = fold_left g l a.
 Proof. intros H. induction l as [|b l IH]; intros a; [reflexivity|]. cbn [fold_left]. rewrite H. apply IH. Qed.
 
-Lemma update_levels t v f : (forall a, f a = a_add t a v) -> wt t v -> forall locs lvls root acc x,
-  wt_levels t lvls -> wt t acc -> good_from t lvls root ->
+Lemma update_levels t w v f : (forall a, f a = a_add t a v) -> wt t v -> forall locs lvls root acc x,
+  wt_levels t lvls -> wt t acc -> good_from t w lvls root ->
   eval_from t (fold_left (upd_loc t f) locs lvls) root acc x
   = fold_left (fun e l => if on_loc t lvls root x l then a_add t e v else e) locs (eval_from t lvls root acc x)
   /\ shape (fold_left (upd_loc t f) locs lvls) = shape lvls /\ wt_levels t (fold_left (upd_loc t f) locs lvls).
@@ -193,9 +212,9 @@ Proof.
   cbn [fold_left]. rewrite upd_loc_eq.
   assert (Sh : shape (upd_at f lvls i j b) = shape lvls) by apply upd_at_shape.
   assert (W' : wt_levels t (upd_at f lvls i j b)) by (apply upd_at_wt; assumption).
-  assert (G' : good_from t (upd_at f lvls i j b) root) by (apply (good_from_shape t lvls); [symmetry; exact Sh|exact G]).
+  assert (G' : good_from t w (upd_at f lvls i j b) root) by (apply (good_from_shape t w lvls); [symmetry; exact Sh|exact G]).
   destruct (IH (upd_at f lvls i j b) root acc x W' Wa G') as [E [S W'']]. split; [|split; [congruence|exact W'']].
-  rewrite E. rewrite (eval_upd_at t v f Hf Wv lvls i j b root acc x W Wa (good_live t lvls root G)).
+  rewrite E. rewrite (eval_upd_at t v f Hf Wv lvls i j b root acc x W Wa (good_live t w lvls root G)).
   cbn [on_loc]. apply fold_left_ext. intros e [[i' j'] b']. unfold on_loc. rewrite (on_path_shape t _ lvls root x i' j' b' Sh). reflexivity.
 Qed.
 
@@ -203,10 +222,12 @@ Lemma update_ok d locs f v : okd d -> (forall a, f a = a_add (d_type d) a v) -> 
   okd (update d locs f) /\ same d (update d locs f)
   /\ forall x, eval (update d locs f) x = Nat.iter (hits d x locs) (fun e => a_add (d_type d) e v) (eval d x).
 Proof.
-  intros [W G] Hf Wv. unfold update, okd, same, eval, hits. cbn [d_type d_levels d_root d_units].
-  assert (H := fun x => update_levels (d_type d) v f Hf Wv locs (d_levels d) (d_root d) (a_zero (d_type d)) x W (a_zero_wt _) G).
-  destruct (H []) as [_ [Sh W']]. split; [split; [exact W'|apply (good_from_shape _ (d_levels d)); [symmetry; exact Sh|exact G]]|].
-  split; [repeat split; exact Sh|]. intros x. destruct (H x) as [E _]. rewrite E. apply fold_iter.
+  intros O Hf Wv. pose proof O as [W [Rc G]].
+  assert (H := fun x => update_levels (d_type d) (diameter d) v f Hf Wv locs (d_levels d) (d_root d) (a_zero (d_type d)) x W (a_zero_wt _) G).
+  destruct (H []) as [_ [Sh W']].
+  assert (S : same d (update d locs f)) by (repeat split; exact Sh).
+  split; [apply (okd_same d _ S); [exact W'|exact O]|]. split; [exact S|].
+  intros x. unfold update, eval, hits. cbn [d_type d_levels d_root]. destruct (H x) as [E _]. rewrite E. apply fold_iter.
 Qed.
 
 (* ---------- 5. the node an assignment reaches at a level; "value 0 of a unit" locations ---------- *)
@@ -224,7 +245,7 @@ Proof.
   induction lvls as [|l rest IH]; intros root x lvl j b H1 H2; [cbn in H1; lia|]. destruct x as [|c x]; [cbn in H2; lia|].
   destruct lvl as [|lvl]; [reflexivity|]. cbn [on_path node_at nth]. apply IH; cbn in H1, H2; lia.
 Qed.
-Lemma good_node_at t : forall lvls root x lvl, good_from t lvls root -> lvl < length lvls -> lvl < length x ->
+Lemma good_node_at t w : forall lvls root x lvl, good_from t w lvls root -> lvl < length lvls -> lvl < length x ->
   node_at t lvls root x lvl < length (nth lvl lvls []) /\ n_live (getnode t (nth lvl lvls []) (node_at t lvls root x lvl)) = true.
 Proof.
   induction lvls as [|l rest IH]; intros root x lvl G H1 H2; [cbn in H1; lia|]. destruct x as [|c x]; [cbn in H2; lia|].
@@ -243,7 +264,7 @@ Qed.
 Lemma hits_live_locs d x lvl : okd d -> lvl < length (d_levels d) -> length x = length (d_levels d) ->
   hits d x (live_locs d lvl false) = if nth lvl x false then 0 else 1.
 Proof.
-  intros [W G] H1 H2. unfold hits, live_locs. rewrite filter_map_length.
+  intros [W [Rc G]] H1 H2. unfold hits, live_locs. rewrite filter_map_length.
   set (js := filter (fun j => n_live (nth j (nth lvl (d_levels d) []) (dead (d_type d)))) (seq 0 (length (nth lvl (d_levels d) [])))).
   set (na := node_at (d_type d) (d_levels d) (d_root d) x lvl).
   rewrite (filter_length_ext _ (fun j => Nat.eqb na j && Bool.eqb (nth lvl x false) false)).
@@ -251,7 +272,7 @@ Proof.
   destruct (nth lvl x false).
   - rewrite (filter_length_ext _ (fun _ => false)); [apply filter_false_length|]. intros j _. apply andb_false_r.
   - rewrite (filter_length_ext _ (Nat.eqb na)) by (intros j _; apply andb_true_r).
-    destruct (good_node_at (d_type d) (d_levels d) (d_root d) x lvl G H1 ltac:(lia)) as [N1 N2]. fold na in N1, N2.
+    destruct (good_node_at (d_type d) (diameter d) (d_levels d) (d_root d) x lvl G H1 ltac:(lia)) as [N1 N2]. fold na in N1, N2.
     apply count_eq_nodup; [apply NoDup_filter, seq_NoDup|]. apply filter_In. split; [apply in_seq; lia|exact N2].
 Qed.
 
@@ -316,7 +337,7 @@ Proof.
     rewrite E. intros l' n Hl Hn. destruct Hl as [<-|Hl]; [apply (W l n); [left; reflexivity|exact Hn]|].
     apply (IH rest (wt_levels_tail t l rest W) l' n Hl Hn).
 Qed.
-Lemma restrict_levels_good t v : forall k lvls j, good_from t lvls j -> good_from t (restrict_levels t lvls (S k) v) j.
+Lemma restrict_levels_good t w v : forall k lvls j, good_from t w lvls j -> good_from t w (restrict_levels t lvls (S k) v) j.
 Proof.
   induction k as [|k IH]; intros lvls j G.
   - destruct lvls as [|prev [|cur rest]]; [exact G|exact G|]. cbn [restrict_levels good_from] in *.
@@ -355,15 +376,44 @@ Proof.
   intros H. apply in_app_or in H. destruct H as [H|[H|H]]; [right; eapply In_firstn; exact H|left; symmetry; exact H|right; eapply In_skipn; exact H].
 Qed.
 
+Lemma restrict_levels_lengths t v : forall k lvls, map (@length node) (restrict_levels t lvls (S k) v)
+   = match lvls with [] => [] | l :: _ => if Nat.ltb (S k) (length lvls) then firstn (S k) (map (@length node) lvls) ++ skipn (S (S k)) (map (@length node) lvls)
+                                          else map (@length node) lvls end.
+Proof.
+  induction k as [|k IH]; intros lvls.
+  - destruct lvls as [|prev [|cur rest]]; try reflexivity. cbn [restrict_levels map length Nat.ltb Nat.leb firstn skipn app]. rewrite map_length. reflexivity.
+  - destruct lvls as [|l rest]; [reflexivity|].
+    assert (E : restrict_levels t (l :: rest) (S (S k)) v = l :: restrict_levels t rest (S k) v) by (destruct rest; reflexivity).
+    rewrite E. cbn [map]. rewrite IH. destruct rest as [|l' rest']; [reflexivity|]. cbn [length map].
+    change (Nat.ltb (S (S k)) (S (S (length rest')))) with (Nat.ltb (S k) (S (length rest'))).
+    destruct (Nat.ltb (S k) (S (length rest'))); reflexivity.
+Qed.
+Lemma restrict_levels_in_length t v k lvls l : In l (restrict_levels t lvls (S k) v) -> exists l', In l' lvls /\ length l = length l'.
+Proof.
+  intros H. assert (Hin : In (length l) (map (@length node) (restrict_levels t lvls (S k) v))) by (apply in_map; exact H).
+  rewrite restrict_levels_lengths in Hin. destruct lvls as [|l0 r0]; [destruct Hin|].
+  assert (Hin' : In (length l) (map (@length node) (l0 :: r0))).
+  { destruct (Nat.ltb (S k) (length (l0 :: r0))); [|exact Hin]. apply in_app_or in Hin. destruct Hin as [Hin|Hin]; [eapply In_firstn; exact Hin|eapply In_skipn; exact Hin]. }
+  apply in_map_iff in Hin'. destruct Hin' as [l' [E Hl']]. exists l'. split; [exact Hl'|symmetry; exact E].
+Qed.
+Lemma restrict_levels_diameter t v k lvls : match restrict_levels t lvls (S k) v with [] => 1 | l :: _ => length l end = match lvls with [] => 1 | l :: _ => length l end.
+Proof.
+  destruct lvls as [|l rest]; [reflexivity|]. destruct k as [|k].
+  - destruct rest as [|cur rest]; [reflexivity|]. cbn [restrict_levels]. apply map_length.
+  - assert (E : restrict_levels t (l :: rest) (S (S k)) v = l :: restrict_levels t rest (S k) v) by (destruct rest; reflexivity). rewrite E. reflexivity.
+Qed.
+
 Lemma restrict_ok d lvl v : okd d -> 2 <= length (d_levels d) -> lvl < length (d_levels d) ->
   exists r, add_restrict d lvl v = Some r /\ okd r /\ d_type r = d_type d /\ S (length (d_levels r)) = length (d_levels d)
             /\ forall x, S (length x) = length (d_levels d) -> eval r x = eval d (insert_bit lvl v x).
 Proof.
-  intros [W G] H2 Hl. destruct lvl as [|k].
+  intros [W [Rc G]] H2 Hl. destruct lvl as [|k].
   - destruct (d_levels d) as [|l0 [|l1 rest]] eqn:E; cbn in H2; try lia.
+    assert (D0 : diameter d = length l0) by (unfold diameter; rewrite E; reflexivity).
+    assert (D1 : length l1 = diameter d) by (apply Rc; rewrite E; right; left; reflexivity).
     cbn [good_from] in G. destruct G as [G1 [G2 [G3 G4]]].
     set (t := d_type d) in *. set (r0 := getnode t l0 (d_root d)) in *. set (root' := child r0 v).
-    assert (Gr : good_from t (l1 :: rest) root') by (unfold root'; destruct v; assumption).
+    assert (Gr : good_from t (diameter d) (l1 :: rest) root') by (unfold root'; destruct v; assumption).
     assert (Hr : root' < length l1) by (cbn [good_from] in Gr; tauto).
     set (n := getnode t l1 root').
     set (n' := mkNode (n_live n) (n_c0 n) (n_c1 n) (a_add t (n_a0 n) (adder r0 v)) (a_add t (n_a1 n) (adder r0 v))).
@@ -371,21 +421,30 @@ Proof.
     split; [unfold add_restrict; rewrite E; reflexivity|].
     assert (Wr0 : wt t (adder r0 v)) by (apply adder_wt, getnode_wt; intros m Hm; apply (W l0 m); [left; reflexivity|exact Hm]).
     assert (Wn : wt_node t n) by (apply getnode_wt; intros m Hm; apply (W l1 m); [right; left; reflexivity|exact Hm]).
-    split; [split|].
+    assert (Sh : map nshape (set_node root' n' l1) = map nshape l1).
+    { apply set_node_shape; [exact Hr|]. replace (nth root' l1 n') with n; [reflexivity|]. unfold n, getnode. apply nth_indep. exact Hr. }
+    assert (Ls : length (set_node root' n' l1) = length l1) by (rewrite <- (map_length nshape), Sh, map_length; reflexivity).
+    split; [split; [|split]|].
     + cbn [d_type d_levels]. intros l m Hl' Hm. destruct Hl' as [<-|Hl'].
       * apply set_node_in in Hm. destruct Hm as [->|Hm]; [|apply (W l1 m); [right; left; reflexivity|exact Hm]].
         destruct Wn as [W0 W1]. split; cbn [n_a0 n_a1 n']; apply a_add_wt; assumption.
       * apply (W l m); [right; right; exact Hl'|exact Hm].
-    + cbn [d_type d_levels d_root]. apply (good_from_shape t (l1 :: rest)); [|exact Gr].
-      cbn [shape map]. f_equal. symmetry. apply set_node_shape; [exact Hr|].
-      replace (nth root' l1 n') with n; [reflexivity|]. unfold n, getnode. apply nth_indep. exact Hr.
+    + intros l Hl'. unfold diameter. cbn [d_levels] in *. rewrite Ls, D1. destruct Hl' as [<-|Hl']; [rewrite Ls; exact D1|].
+      apply Rc. rewrite E. right. right. exact Hl'.
+    + unfold diameter. cbn [d_type d_levels d_root]. rewrite Ls, D1. apply (good_from_shape t _ (l1 :: rest)); [|exact Gr].
+      cbn [shape map]. f_equal. symmetry. exact Sh.
     + split; [reflexivity|]. split; [reflexivity|]. intros x Hx.
       destruct (eval_restrict_first d v x l0 l1 rest E) as [r [Er Ev]]; [rewrite E; exact W|exact Hr|destruct x; [cbn in Hx; lia|discriminate]|].
       unfold add_restrict in Er. rewrite E in Er. injection Er as <-. exact Ev.
   - exists (mkADD (d_type d) (firstn (S k) (d_units d) ++ skipn (S (S k)) (d_units d)) (d_root d) (restrict_levels (d_type d) (d_levels d) (S k) v)).
-    split; [reflexivity|]. split; [split; cbn [d_type d_levels d_root]; [apply restrict_levels_wt; exact W|apply restrict_levels_good; exact G]|].
-    split; [reflexivity|]. split; [cbn [d_levels]; apply restrict_levels_length; exact Hl|].
-    intros x Hx. destruct (eval_restrict d k v x W (good_live _ _ _ G) Hl Hx) as [r [Er Ev]]. injection Er as <-. exact Ev.
+    assert (Dm : diameter (mkADD (d_type d) (firstn (S k) (d_units d) ++ skipn (S (S k)) (d_units d)) (d_root d) (restrict_levels (d_type d) (d_levels d) (S k) v)) = diameter d)
+      by (unfold diameter; cbn [d_levels]; apply restrict_levels_diameter).
+    split; [reflexivity|]. split; [split; [|split]|].
+    + cbn [d_type d_levels]. apply restrict_levels_wt; exact W.
+    + intros l Hl'. rewrite Dm. cbn [d_levels] in Hl'. destruct (restrict_levels_in_length _ _ _ _ _ Hl') as [l' [Hin' EL]]. rewrite EL. apply Rc. exact Hin'.
+    + rewrite Dm. cbn [d_type d_levels d_root]. apply restrict_levels_good; exact G.
+    + split; [reflexivity|]. split; [cbn [d_levels]; apply restrict_levels_length; exact Hl|].
+      intros x Hx. destruct (eval_restrict d k v x W (good_live _ _ _ _ G) Hl Hx) as [r [Er Ev]]. injection Er as <-. exact Ev.
 Qed.
 
 (* ---------- 8. the product construction keeps diagrams well formed ---------- *)
@@ -426,26 +485,38 @@ Proof.
   rewrite (H x (or_introl eq_refl)), (H y (or_intror (or_introl eq_refl))). reflexivity.
 Qed.
 
-Lemma sum_levels_good t : forall ls1 ls2 pn w, length ls1 = length ls2 -> NoDup pn ->
-  (forall k, k < length pn -> good_from t ls1 (fst (nth k pn (0, 0))) /\ good_from t ls2 (snd (nth k pn (0, 0)))) ->
-  forall k, k < length pn -> good_from t (sum_levels t ls1 ls2 pn w) k.
+Lemma pairs_bound (w1 w2 : nat) : forall l : list (nat * nat), NoDup l -> (forall q, In q l -> fst q < w1 /\ snd q < w2) -> length l <= w1 * w2.
 Proof.
-  induction ls1 as [|l1 r1 IH]; intros [|l2 r2] pn w Hlen Hnd Hg k Hk; try discriminate.
-  - cbn [sum_levels good_from].
-    assert (length pn <= 1); [|lia]. apply (nodup_const_length (0, 0)); [exact Hnd|].
-    intros q Hq. destruct (In_nth pn q (0, 0) Hq) as [k' [Hk' <-]]. destruct (Hg k' Hk') as [A B]. cbn [good_from] in A, B.
-    destruct (nth k' pn (0, 0)) as [a b]. cbn [fst snd] in A, B. congruence.
+  intros l Hnd H. replace (w1 * w2) with (length (list_prod (seq 0 w1) (seq 0 w2))) by (rewrite prod_length, !seq_length; reflexivity).
+  apply NoDup_incl_length; [exact Hnd|]. intros [a b] Hq. destruct (H _ Hq) as [Ha Hb]. cbn [fst snd] in Ha, Hb.
+  apply in_prod; apply in_seq; lia.
+Qed.
+
+Lemma sum_levels_good t w1 w2 : forall ls1 ls2 pn, length ls1 = length ls2 -> NoDup pn ->
+  (forall l, In l ls1 -> length l = w1) -> (forall l, In l ls2 -> length l = w2) ->
+  (forall k, k < length pn -> good_from t w1 ls1 (fst (nth k pn (0, 0))) /\ good_from t w2 ls2 (snd (nth k pn (0, 0)))) ->
+  (forall k, k < length pn -> good_from t (w1 * w2) (sum_levels t ls1 ls2 pn (w1 * w2)) k)
+  /\ (forall l, In l (sum_levels t ls1 ls2 pn (w1 * w2)) -> length l = w1 * w2).
+Proof.
+  induction ls1 as [|l1 r1 IH]; intros [|l2 r2] pn Hlen Hnd R1 R2 Hg; try discriminate.
+  - cbn [sum_levels good_from]. split; [|intros l []]. intros k Hk.
+    assert (length pn <= w1 * w2); [|lia]. apply pairs_bound; [exact Hnd|].
+    intros q Hq. destruct (In_nth pn q (0, 0) Hq) as [k' [Hk' <-]]. destruct (Hg k' Hk') as [A B]. cbn [good_from] in A, B. auto.
   - cbn [sum_levels]. pose proof (sum_level_spec t l1 l2 pn []) as S. pose proof (sum_level_cn t l1 l2 pn [] (NoDup_nil _)) as [Nd Incn].
     destruct (sum_level t l1 l2 pn []) as [nodes cn]. cbn [snd] in Nd, Incn. destruct S as [L [_ H]].
-    cbn [good_from]. rewrite app_length. split; [lia|]. rewrite getnode_app_l by lia.
-    destruct (H k Hk) as [Hlive [_ Hch]]. change (getnode t nodes k) with (nth k nodes (dead t)). split; [exact Hlive|].
-    assert (Hnext : forall k', k' < length cn -> good_from t r1 (fst (nth k' cn (0, 0))) /\ good_from t r2 (snd (nth k' cn (0, 0)))).
+    assert (Hnext : forall k', k' < length cn -> good_from t w1 r1 (fst (nth k' cn (0, 0))) /\ good_from t w2 r2 (snd (nth k' cn (0, 0)))).
     { intros k' Hk'. destruct (Incn (nth k' cn (0, 0)) (nth_In cn (0, 0) Hk')) as [ [] | [k0 [b [Hk0 Eq]]] ]. rewrite Eq. cbn [fst snd].
       destruct (Hg k0 Hk0) as [A B]. cbn [good_from] in A, B. destruct A as [_ [_ [A0 A1]]]. destruct B as [_ [_ [B0 B1]]].
       destruct b; cbn [child]; auto. }
+    destruct (IH r2 cn ltac:(cbn in Hlen; lia) Nd (fun l Hl => R1 l (or_intror Hl)) (fun l Hl => R2 l (or_intror Hl)) Hnext) as [IG IR].
+    assert (Hb : length pn <= w1 * w2).
+    { apply pairs_bound; [exact Hnd|]. intros q Hq. destruct (In_nth pn q (0, 0) Hq) as [k' [Hk' <-]]. destruct (Hg k' Hk') as [A B].
+      cbn [good_from] in A, B. rewrite <- (R1 l1 (or_introl eq_refl)), <- (R2 l2 (or_introl eq_refl)). tauto. }
     split.
-    + destruct (Hch false) as [_ Hc]. apply (IH r2 cn w); [cbn in Hlen; lia|exact Nd|exact Hnext|exact Hc].
-    + destruct (Hch true) as [_ Hc]. apply (IH r2 cn w); [cbn in Hlen; lia|exact Nd|exact Hnext|exact Hc].
+    + intros k Hk. cbn [good_from]. rewrite app_length. split; [lia|]. rewrite getnode_app_l by lia.
+      destruct (H k Hk) as [Hlive [_ Hch]]. change (getnode t nodes k) with (nth k nodes (dead t)). split; [exact Hlive|].
+      split; [destruct (Hch false) as [_ Hc]|destruct (Hch true) as [_ Hc]]; apply IG; exact Hc.
+    + intros l [<-|Hl]; [|apply IR; exact Hl]. rewrite app_length, repeat_length. lia.
 Qed.
 
 Lemma sum_levels_wt t : forall ls1 ls2 pn w, wt_levels t ls1 -> wt_levels t ls2 -> wt_levels t (sum_levels t ls1 ls2 pn w).
@@ -471,17 +542,30 @@ Qed.
 Lemma sum_ok d1 d2 : okd d1 -> okd d2 -> d_type d2 = d_type d1 -> length (d_levels d1) = length (d_levels d2) ->
   okd (add_sum d1 d2) /\ d_type (add_sum d1 d2) = d_type d1 /\ length (d_levels (add_sum d1 d2)) = length (d_levels d1).
 Proof.
-  intros [W1 G1] [W2 G2] Ht Hl. unfold add_sum, okd. cbn [d_type d_levels d_root]. rewrite Ht in W2, G2.
-  split; [split|split; [reflexivity|apply sum_levels_length; exact Hl]].
-  - apply sum_levels_wt; assumption.
-  - apply (sum_levels_good (d_type d1) (d_levels d1) (d_levels d2) [(d_root d1, d_root d2)]); [exact Hl|constructor; [intros []|constructor]| |cbn; lia].
-    intros k Hk. cbn in Hk. assert (k = 0) by lia. subst. cbn [nth fst snd]. auto.
+  intros [W1 [R1 G1]] [W2 [R2 G2]] Ht Hl. rewrite Ht in W2, G2.
+  destruct (sum_levels_good (d_type d1) (diameter d1) (diameter d2) (d_levels d1) (d_levels d2) [(d_root d1, d_root d2)] Hl) as [SG SR];
+    [constructor; [intros []|constructor]|exact R1|exact R2| |].
+  { intros k Hk. cbn in Hk. assert (k = 0) by lia. subst. cbn [nth fst snd]. auto. }
+  assert (Dm : diameter (add_sum d1 d2) = match d_levels d1 with [] => 1 | _ => diameter d1 * diameter d2 end).
+  { unfold diameter at 1, add_sum. cbn [d_levels].
+    destruct (d_levels d1) as [|l1 r1] eqn:E1; destruct (d_levels d2) as [|l2 r2] eqn:E2; try discriminate; [reflexivity|].
+    destruct (sum_levels (d_type d1) (l1 :: r1) (l2 :: r2) [(d_root d1, d_root d2)] (diameter d1 * diameter d2)) as [|l r] eqn:Es.
+    - exfalso. assert (HL := sum_levels_length (d_type d1) (l1 :: r1) (l2 :: r2) [(d_root d1, d_root d2)] (diameter d1 * diameter d2) Hl). rewrite Es in HL. discriminate.
+    - apply SR. left. reflexivity. }
+  split; [|split; [reflexivity|apply sum_levels_length; exact Hl]].
+  split; [apply sum_levels_wt; assumption|]. split.
+  - intros l Hin. unfold add_sum in Hin. cbn [d_levels] in Hin. rewrite Dm. destruct (d_levels d1) as [|l1 r1] eqn:E1.
+    + destruct (d_levels d2); [destruct Hin|discriminate].
+    + apply SR. exact Hin.
+  - rewrite Dm. unfold add_sum. cbn [d_type d_levels d_root]. destruct (d_levels d1) as [|l1 r1] eqn:E1.
+    + destruct (d_levels d2); [cbn; lia|discriminate].
+    + apply SG. cbn. lia.
 Qed.
 
 (* ---------- 9. +1 on every value-1 edge ---------- *)
 Definition bump_node (t : atype) (one : aval) (n : node) : node :=
   mkNode (n_live n) (n_c0 n) (n_c1 n) (n_a0 n) (a_add t (n_a1 n) one).
-Lemma eval_bump t one : wt t one -> forall lvls j acc x, wt_levels t lvls -> wt t acc -> good_from t lvls j -> length x = length lvls ->
+Lemma eval_bump t w one : wt t one -> forall lvls j acc x, wt_levels t lvls -> wt t acc -> good_from t w lvls j -> length x = length lvls ->
   eval_from t (map (map (bump_node t one)) lvls) j acc x
   = Nat.iter (count_true x) (fun e => a_add t e one) (eval_from t lvls j acc x).
 Proof.
@@ -506,17 +590,16 @@ Lemma bump_ok p d : okd d -> wt (d_type d) (Some (1 :: repeat 0 (2 * p_classes p
   /\ forall x, length x = length (d_levels d) ->
        eval (bump_ones p d) x = Nat.iter (count_true x) (fun e => a_add (d_type d) e (Some (1 :: repeat 0 (2 * p_classes p)))) (eval d x).
 Proof.
-  intros [W G] Wo. set (one := Some (1 :: repeat 0 (2 * p_classes p))) in *.
+  intros O Wo. pose proof O as [W [Rc G]]. set (one := Some (1 :: repeat 0 (2 * p_classes p))) in *.
   assert (E : d_levels (bump_ones p d) = map (map (bump_node (d_type d) one)) (d_levels d)) by reflexivity.
   assert (Sh : shape (d_levels (bump_ones p d)) = shape (d_levels d)).
   { rewrite E. unfold shape. rewrite map_map. apply map_ext. intros l. rewrite map_map. apply map_ext. intros n. reflexivity. }
-  split; [split|split].
-  - rewrite E. cbn [d_type bump_ones]. intros l n Hl Hn. apply in_map_iff in Hl. destruct Hl as [l0 [<- Hl0]].
+  assert (S : same d (bump_ones p d)) by (repeat split; exact Sh).
+  split; [|split; [exact S|]].
+  - apply (okd_same d _ S); [|exact O]. rewrite E. cbn [d_type bump_ones]. intros l n Hl Hn. apply in_map_iff in Hl. destruct Hl as [l0 [<- Hl0]].
     apply in_map_iff in Hn. destruct Hn as [n0 [<- Hn0]]. destruct (W l0 n0 Hl0 Hn0) as [W0 W1].
     split; cbn [bump_node n_a0 n_a1]; [exact W0|apply a_add_wt; assumption].
-  - apply (good_from_shape _ (d_levels d)); [symmetry; exact Sh|exact G].
-  - repeat split. exact Sh.
-  - intros x Hx. unfold eval. rewrite E. cbn [d_type d_root bump_ones]. apply eval_bump; auto using a_zero_wt.
+  - intros x Hx. unfold eval. rewrite E. cbn [d_type d_root bump_ones]. apply (eval_bump _ (diameter d)); auto using a_zero_wt.
 Qed.
 
 (* ---------- 10. several updates in a row; the boundary diagrams ---------- *)
@@ -544,7 +627,7 @@ Definition zero_adders (d : add) : Prop :=
   forall l n, In l (d_levels d) -> In n l -> n_a0 n = a_zero (d_type d) /\ n_a1 n = a_zero (d_type d).
 Lemma eval_zero_adders d x : inb (d_type d) (repeat 0 (length (a_max (d_type d)))) = true -> okd d -> zero_adders d -> eval d x = a_zero (d_type d).
 Proof.
-  intros Hz [_ G] Z. unfold eval. set (t := d_type d) in *.
+  intros Hz [_ [_ G]] Z. unfold eval. set (t := d_type d) in *. set (w := diameter d) in *.
   assert (Ez : a_add t (a_zero t) (a_zero t) = a_zero t).
   { unfold a_zero. cbn [a_add]. rewrite (ADDProofs.vadd_zero_l (length (a_max t))) by apply repeat_length. unfold clip. rewrite Hz. reflexivity. }
   revert Z G. unfold zero_adders. fold t. generalize (d_root d). generalize (d_levels d). intros lvls. revert x.
@@ -754,9 +837,8 @@ Proof.
   set (DB := bump_ones p D) in *.
   assert (TB : d_type DB = t) by (destruct Sb as [A _]; rewrite A, Ts, Tdw; exact TW).
   assert (LB : length (d_levels DB) = n - 1) by (rewrite (same_length D DB Sb), Ls; lia).
-  destruct Ob as [WB GB].
-  rewrite (modelcount_histogram DB); [|rewrite TB; apply t_wf|exact WB|].
-  2:{ apply good_live_w; [|exact GB]. unfold diameter. destruct (d_levels DB) as [|l rest]; [lia|]. cbn [good_from] in GB. lia. }
+  destruct Ob as [WB [RB GB]].
+  rewrite (modelcount_histogram DB); [|rewrite TB; apply t_wf|exact WB|apply good_live_w; exact GB].
   unfold count_spec. rewrite TB, LB. fold t. fold n. f_equal. apply map_ext_in. intros x Hx. apply bmasks_lengths in Hx.
   rewrite Vb by (rewrite Ls; lia). rewrite Ts, Tdw, TW.
   unfold D. rewrite eval_sum; [|congruence|lia|destruct Odw; assumption|rewrite Tdw, TW, <- TO, <- Tdwo; destruct Odwo; assumption|rewrite Tdw, TW; apply t_zero].
@@ -787,8 +869,16 @@ Proof.
 Qed.
 
 (* ---------- 12. compile(), chain case: one unit per row ---------- *)
-Lemma chain_good t : forall (units : list nat), good_from t (map (fun _ : nat => [mkNode true 0 0 (a_zero t) (a_zero t)]) units) 0.
-Proof. induction units as [|u units IH]; [reflexivity|]. cbn [map good_from length getnode nth n_live n_c0 n_c1]. repeat split; try lia; exact IH. Qed.
+Lemma chain_good t : forall (units : list nat), good_from t 1 (map (fun _ : nat => [mkNode true 0 0 (a_zero t) (a_zero t)]) units) 0.
+Proof. induction units as [|u units IH]; [cbn; lia|]. cbn [map good_from length getnode nth n_live n_c0 n_c1]. repeat split; try lia; exact IH. Qed.
+Lemma chain_okd t units : okd (chain t units).
+Proof.
+  assert (Dm : diameter (chain t units) = 1) by (unfold diameter, chain; cbn [d_levels]; destruct units; reflexivity).
+  split; [|split].
+  - cbn [chain d_type d_levels]. intros l nd Hl Hnd. apply in_map_iff in Hl. destruct Hl as [u [<- _]]. destruct Hnd as [<-|[]]. split; apply a_zero_wt.
+  - intros l Hl. rewrite Dm. cbn [chain d_levels] in Hl. apply in_map_iff in Hl. destruct Hl as [u [<- _]]. reflexivity.
+  - rewrite Dm. cbn [chain d_type d_levels d_root]. apply chain_good.
+Qed.
 Lemma chain_node_at t : forall (units : list nat) x lvl, node_at t (map (fun _ : nat => [mkNode true 0 0 (a_zero t) (a_zero t)]) units) 0 x lvl = 0.
 Proof.
   induction units as [|u units IH]; intros x lvl; destruct lvl as [|lvl]; try reflexivity. cbn [map node_at]. destruct x as [|c x]; [reflexivity|].
@@ -804,9 +894,7 @@ Theorem oracle_chain_exact p target t1 t2 :
 Proof.
   intros Hrows Hn Htg. unfold compile_chain. cbn [fst snd]. set (t := p_type p). set (n := p_units p) in *.
   apply oracle_exact; try assumption; try reflexivity.
-  - split; cbn [chain d_type d_levels d_root].
-    + intros l nd Hl Hnd. apply in_map_iff in Hl. destruct Hl as [u [<- _]]. destruct Hnd as [<-|[]]. split; apply a_zero_wt.
-    + apply chain_good.
+  - apply chain_okd.
   - intros l nd Hl Hnd. cbn [chain d_levels d_type] in *. apply in_map_iff in Hl. destruct Hl as [u [<- _]]. destruct Hnd as [<-|[]]. split; reflexivity.
   - cbn [chain d_levels]. rewrite map_length, seq_length. reflexivity.
   - intros x Hx r Hr. destruct (Hrows r Hr) as [u [Eu Hu]]. rewrite Eu.
